@@ -150,6 +150,11 @@ func (t *ServerTransport) handleDataRequest(w http.ResponseWriter, r *http.Reque
 		return
 	}
 
+	if t.maxHTTPBufferSize > 0 {
+		// The length of a chunked body is not announced: bound what is read.
+		r.Body = http.MaxBytesReader(w, r.Body, t.maxHTTPBufferSize)
+	}
+
 	var (
 		packets []*parser.Packet
 		jsonp   = r.URL.Query().Get("j")
